@@ -12,6 +12,7 @@
 -/
 import RaftVerif.Proofs.ElectionLemmas
 import RaftVerif.Proofs.ReplReadExample
+import RaftVerif.Proofs.ReplReadMono
 set_option linter.unusedSimpArgs false
 namespace Raft
 open Node
@@ -145,5 +146,24 @@ theorem C05_linearizable_read {cfg : Config} (hnd : cfg.voterIds.Nodup) {r : Rep
 example : Repl.RReachable Repl.cfg3 Repl.t10 ∧ Repl.CanServe Repl.cfg3 Repl.t10 Repl.rd8 2 [1, 2] ∧
     ∃ e ∈ Repl.t10.commitAt, e.time < Repl.rd8.time ∧ e.index = 2 :=
   ⟨Repl.t10_reachable, Repl.t10_can_serve, Repl.t10_has_earlier_commit⟩
+
+/-- **Reads that do not overlap in time never go backwards** (the statement's second clause), on
+    the same timed model (Proofs/ReplReadMono.lean). A read was answered in the reachable state
+    `r1` from the first `a1` entries of its leader's log; `r2` is any later state; a read that was
+    registered at or after the moment of the first answer (`r1.now ≤ rd2.time`) and is served in
+    `r2` — by whatever leader, of whatever later term, after any crashes and elections in
+    between — is answered from a prefix that extends the first answer. No timing assumption. -/
+theorem C05_reads_never_go_backwards {cfg : Config} (hnd : cfg.voterIds.Nodup) {r1 r2 : Repl.RState}
+    (h1 : Repl.RReachable cfg r1) (h12 : Repl.RReachableFrom cfg r1 r2)
+    (rd1 rd2 : Repl.Read) (a1 a2 : Nat) (Q1 Q2 : List Nat)
+    (hs1 : Repl.CanServe cfg r1 rd1 a1 Q1) (hs2 : Repl.CanServe cfg r2 rd2 a2 Q2) (hafter : r1.now ≤ rd2.time) :
+    a1 ≤ a2 ∧ (r1.s.nodes rd1.leader).log.take a1 <+: (r2.s.nodes rd2.leader).log.take a2 :=
+  Repl.reads_never_go_backwards hnd h1 h12 rd1 rd2 a1 a2 Q1 Q2 hs1 hs2 hafter
+
+/-- non-vacuity: the first read served at time 10, a second one registered at 10 and served at 13 -/
+example : Repl.RReachable Repl.cfg3 Repl.t10 ∧ Repl.RReachableFrom Repl.cfg3 Repl.t10 Repl.t13 ∧
+    Repl.CanServe Repl.cfg3 Repl.t10 Repl.rd8 2 [1, 2] ∧ Repl.CanServe Repl.cfg3 Repl.t13 Repl.rd11 2 [1, 2] ∧
+    Repl.t10.now ≤ Repl.rd11.time :=
+  ⟨Repl.t10_reachable, Repl.t13_from_t10, Repl.t10_can_serve, Repl.t13_can_serve, by decide⟩
 
 end Raft
